@@ -93,7 +93,7 @@ MonStep(ev, o) ==
                   ELSE IF ~top /\ (ev.e = "done" \/ (ev.e = "nsnow" /\ odone /\ Len(oc) = 0)) THEN TRUE ELSE mon.idone
         pend1 == IF ev.e \in {"done", "disable", "adisable"} \/ (top /\ ev.e = "engage") THEN FALSE
                  ELSE IF ~top /\ mon.idone /\ ev.e \in {"ns", "engage"} THEN TRUE
-                 ELSE IF ~top /\ mon.idone /\ ev.e = "nsnow" THEN Len(oc) = 0
+                 ELSE IF ~top /\ mon.idone /\ ev.e = "nsnow" THEN TRUE    \* (even if the nested execute() ran the default state)
                  ELSE mon.pend
         \* once an exception has left execute() the properties no longer judge the history (MagicSM!Judged); the
         \* lock-step comparison goes on
